@@ -137,6 +137,13 @@ func mkCtxParse(c Ctx, s string) (ev TEv) {
 		}
 	}()
 	var dst apd.Decimal
+	if len(s)%2 == 1 { // a destination in use: negative, non-zero exponent, a coefficient wider than the inline array
+		dst.Negative, dst.Exponent = true, -7
+		dst.Coeff.SetString("987654321098765432109876543210987654321098765432109876543210", 10)
+		if len(s)%4 == 3 {
+			dst.Form = apd.NaNSignaling
+		}
+	}
 	r, fl, err := decCtx(c).SetString(&dst, s)
 	ev.NilRet = r == nil
 	ev.Fl = int(fl)
